@@ -1,4 +1,5 @@
 SPECIFICATION Spec
+CONSTANT OtherComps = {"lz4", "Snappy", "zstd"}
 CONSTANT StrVals = {"", "a"}
 INVARIANTS TypeOK CqlVersionKept
 PROPERTIES SetGet Frame
